@@ -11,9 +11,13 @@ package main
 //   (f) FHIRPatch operations with right / wrong / nil values and a nil resource.
 
 import (
+	"context"
 	"fmt"
+	"os"
+	"os/exec"
 	"sort"
 	"strings"
+	"time"
 
 	dtpb "github.com/google/fhir/go/proto/google/fhir/proto/r4/core/datatypes_go_proto"
 	bcrpb "github.com/google/fhir/go/proto/google/fhir/proto/r4/core/resources/bundle_and_contained_resource_go_proto"
@@ -28,7 +32,20 @@ import (
 	"github.com/verily-src/fhirpath-go/internal/fhir"
 )
 
-func init() { props["C01"] = runC01 }
+func init() {
+	props["C01"] = runC01
+	props["hugeprobe"] = runHugeProbe
+}
+
+// runHugeProbe (child process, killed by the parent after its budget): arithmetic on a Decimal whose
+// exponent is 10^8 — a value a FHIR decimal element ("1e100000000") or an environment variable can carry.
+func runHugeProbe(c *Ctx) {
+	big := system.Decimal(decimal.New(1, 100000000))
+	e := fhirpath.MustCompile("%big + 1")
+	_, err := e.Evaluate([]fhir.Resource{}, evalopts.EnvVariable("big", big))
+	fmt.Printf("HUGEPROBE\tdone\t%v\n", err)
+	c.Emit("noop", "x", false)
+}
 
 // boundary literals usable inside source text
 var c01Lits = []string{"0", "1", "-1", "2147483647", "-2147483648", "2147483648", "0.0", "1.5", "-0.5", "1e3", "99999999999999999999.99999999", "0.00000000000000000001",
@@ -133,6 +150,14 @@ func runC01(c *Ctx) {
 	}
 	for _, src := range c01Targeted {
 		run("targeted", src, input)
+	}
+	// a Decimal with a huge exponent (in a child process, so that nothing is left running here)
+	{
+		ctx, cancel := context.WithTimeout(context.Background(), 8*time.Second)
+		out, _ := exec.CommandContext(ctx, os.Args[0], "hugeprobe", "quick", "0", os.Args[4]+"/huge").Output()
+		cancel()
+		c.Observe("targeted %big + 1", false)
+		c.Law(strings.Contains(string(out), "HUGEPROBE\tdone"), "C01/evaluate-hang-huge-exponent", "Evaluate terminates", "%big + 1 with %big = Decimal 1e100000000 (the value of a FHIR decimal element \"1e100000000\")", "no result within 8 s (child process killed)")
 	}
 	// every function that accepts one or two arguments x the square of a small integer boundary set,
 	// on receivers of three shapes: sums, differences and positions computed from two arguments are
